@@ -426,7 +426,7 @@ Lemma endbody_loop u f s pre s' : handle (MEndBody u f) s = (pre, s') -> Forall 
 Proof.
   simpl. destruct (frames s) as [|fr rest]; intros E; inversion E; subst; [constructor|].
   apply Forall_app; split. apply quiet_loop, quiet_drops.
-  destruct f; [constructor | destruct (f_die fr); repeat constructor | destruct (f_die fr); [|destruct ready]; repeat constructor ].
+  destruct f; [constructor | destruct (f_die fr); repeat constructor | destruct (f_die fr); destruct ready; repeat constructor ].
 Qed.
 
 Lemma endbody_none_quiet u s pre s' : handle (MEndBody u FNone) s = (pre, s') -> quiet pre.
